@@ -187,3 +187,25 @@ func TsInWindow(nowNs int64, ts uint64, windowNs int64) bool {
 }
 
 func Join(parts []string) string { return strings.Join(parts, "; ") }
+
+// CasesV renders the Coq file a harness hands to bin/check: the cases are
+// split into chunks (a single list literal of tens of thousands of elements
+// overflows coqc's stack), each chunk evaluated with the model's
+// "<fromFn> <first index> <chunk>" so that reported indices are global.
+func CasesV(header, typ, fromFn string, items []string, chunk int) string {
+	var sb strings.Builder
+	sb.WriteString(header)
+	if len(items) == 0 {
+		fmt.Fprintf(&sb, "Definition cases0 : list %s := [].\nDefinition M0 := Eval vm_compute in %s 0%%N cases0.\nPrint M0.\n", typ, fromFn)
+		return sb.String()
+	}
+	for k := 0; k*chunk < len(items); k++ {
+		lo, hi := k*chunk, (k+1)*chunk
+		if hi > len(items) {
+			hi = len(items)
+		}
+		fmt.Fprintf(&sb, "Definition cases%d : list %s := \n%s.\n", k, typ, vh.CoqList(items[lo:hi]))
+		fmt.Fprintf(&sb, "Definition M%d := Eval vm_compute in %s %d%%N cases%d.\nPrint M%d.\n", k, fromFn, lo, k, k)
+	}
+	return sb.String()
+}
